@@ -134,6 +134,10 @@ struct Run {
     /// carriers handed to `Connection` tasks (pair per opened stream)
     task_ios: [Vec<(IoCtl, IoCtl)>; NP],
     events: Vec<[u64; 3]>,
+    /// real 5 s timers that expired (SleepAll)
+    real_fired: usize,
+    /// the case contains a SleepAll: hook-fired Timer events are skipped
+    no_hook_timers: bool,
 }
 
 fn newest_live(v: &[IoCtl]) -> Option<IoCtl> {
@@ -278,7 +282,18 @@ impl Run {
                 let r = if arg == 0 { ValidationResult::Reject } else { ValidationResult::Accept };
                 self.handle.send_validation_result(peer, r);
             }
-            9 => self.notif.fire_timer(peer),
+            9 => {
+                if !self.no_hook_timers {
+                    self.notif.fire_timer(peer)
+                }
+            }
+            19 => {
+                // every armed 5 s timer really expires
+                let before = self.notif.timers_len();
+                std::thread::sleep(std::time::Duration::from_millis(5300));
+                self.settle();
+                self.real_fired += before - self.notif.timers_len();
+            }
             10 => {
                 let _ = self.handle.open_substream(peer).now_or_never();
             }
@@ -355,6 +370,7 @@ impl Run {
             out.extend([sid as u64, self.pidx(&peer) as u64]);
         }
         out.push(self.notif.tasks().1 as u64);
+        out.push((self.notif.timers_len() + self.real_fired) as u64);
     }
 }
 
@@ -367,7 +383,7 @@ fn run_case(c: &[u64]) -> Option<Vec<u64>> {
         return None;
     }
     for i in 0..nops {
-        if c[4 + 3 * i] > 18 || c[5 + 3 * i] >= NP as u64 {
+        if c[4 + 3 * i] > 19 || c[5 + 3 * i] >= NP as u64 {
             return None;
         }
     }
@@ -385,6 +401,8 @@ fn run_case(c: &[u64]) -> Option<Vec<u64>> {
         outbound: Default::default(),
         task_ios: Default::default(),
         events: Vec::new(),
+        real_fired: 0,
+        no_hook_timers: (0..nops).any(|i| c[4 + 3 * i] == 19),
     };
     let mut out = vec![1u64];
     for i in 0..nops {
@@ -555,6 +573,10 @@ pub fn main(args: &Args) {
             .unwrap_or(vec![0])
     };
     for c in stored.iter() {
+        let sleeps = c.len() >= 4 && (0..c[3] as usize).any(|i| c.get(4 + 3 * i) == Some(&19));
+        if sleeps && !thorough && args.str("replay").is_none() {
+            continue; // real 5 s sleeps: thorough tier only
+        }
         let t = run(c);
         out.emit(c, &t);
     }
